@@ -10,7 +10,8 @@
 (*   bytes   byte strings up to length 5 (+ structured longer prefixes)        *)
 (*   limit   trees of <= 5 nodes x every limit 0..len+1                        *)
 (*   prefix  length prefixes at every size-class boundary up to 2^34 (BigInt)  *)
-EXTENDS SerClassic, TLC, Json, IOUtils, SequencesExt
+EXTENDS SerClassic, TLC, Json, IOUtils
+SE == INSTANCE SequencesExt
 
 VARIABLE c
 
@@ -24,17 +25,20 @@ Thorough == Tier = "thorough"
 \* atom lengths 0, 1 (< 0x80), 1 (>= 0x80), 2, 63, 64; long atoms are repetitions of one byte
 AtomsT == { << >>, << 127 >>, << 128 >>, << 254, 255 >>, Rep(63, 1), Rep(64, 255) }
             \cup (IF Thorough THEN { << 0 >>, << 1 >>, << 255 >>, << 255, 0 >>, Rep(65, 128) } ELSE {})
-RECURSIVE TreesL(_, _)          \* trees with exactly n leaves over the atom set A
-TreesL(n, A) ==
-  IF n = 1 THEN { [a |-> x] : x \in A }
-  ELSE UNION { { [f |-> l, r |-> rr] : l \in TreesL(i, A), rr \in TreesL(n - i, A) } : i \in 1..(n - 1) }
-Trees == IF Kind = "tree" THEN UNION { TreesL(n, AtomsT) : n \in 1..4 } ELSE {}
+\* trees with exactly 1..4 leaves over the atom set A.  (Deliberately not RECURSIVE: TLC evaluates
+\* constant definitions once only if their level is known, which it is not below a RECURSIVE.)
+Pairs(X, Y) == { [f |-> l, r |-> rr] : l \in X, rr \in Y }
+T1(A) == { [a |-> x] : x \in A }
+T2(A) == Pairs(T1(A), T1(A))
+T3(A) == Pairs(T1(A), T2(A)) \cup Pairs(T2(A), T1(A))
+T4(A) == Pairs(T1(A), T3(A)) \cup Pairs(T2(A), T2(A)) \cup Pairs(T3(A), T1(A))
+Trees == IF Kind = "tree" THEN T1(AtomsT) \cup T2(AtomsT) \cup T3(AtomsT) \cup T4(AtomsT) ELSE {}
 
 \* limits: small trees, every L in 0..len+1
 AtomsL == { << >>, << 127 >>, << 128 >>, << 254, 255 >>, Rep(64, 7) }
 TreesLim == IF Kind # "limit" THEN {}
-            ELSE UNION { TreesL(n, AtomsL) : n \in 1..3 }
-                   \cup (IF Thorough THEN TreesL(4, AtomsL \ { Rep(64, 7) }) ELSE {})
+            ELSE T1(AtomsL) \cup T2(AtomsL) \cup T3(AtomsL)
+                   \cup (IF Thorough THEN T4(AtomsL \ { Rep(64, 7) }) ELSE {})
 
 ---------------------------------------------------------------------------
 (* byte strings *)
@@ -64,10 +68,73 @@ BytesU ==
 ---------------------------------------------------------------------------
 (* length prefixes *)
 
-Boundaries == { << 1 >>, << 2 >>, Lim1, Lim2, Lim3, Lim4, << 0, 0, 0, 16 >>, << 0, 0, 0, 0, 1 >>, Lim5,
-                << 0, 0, 0, 0, 8 >>, << 0, 0, 0, 0, 0, 1 >> }
-Near(x) == { NSub(x, N(d)) : d \in { dd \in 0..3 : NGe(x, N(dd)) } } \cup { NAddI(x, d) : d \in 1..2 }
-Sizes == UNION { Near(x) : x \in Boundaries } \cup { << >>, N(100), N(5000), N(70000), << 1, 2, 3, 4 >>, << 9, 8, 7, 6, 1 >> }
+\* every size-class boundary -3..+2, the 2^28 constant of is_canonical_atom, 2^32 (u32 lengths), 2^34 (first
+\* refused size), 2^35, 2^40 and a few ordinary sizes - written out as BigInt literals (a definition that
+\* reaches a RECURSIVE operator has no known level, and TLC would re-evaluate Cases at every use)
+Sizes == { << >>,
+           << 1 >>,
+           << 2 >>,
+           << 3 >>,
+           << 4 >>,
+           << 61 >>,
+           << 62 >>,
+           << 63 >>,
+           << 64 >>,
+           << 65 >>,
+           << 66 >>,
+           << 100 >>,
+           << 136, 19 >>,
+           << 253, 31 >>,
+           << 254, 31 >>,
+           << 255, 31 >>,
+           << 0, 32 >>,
+           << 1, 32 >>,
+           << 2, 32 >>,
+           << 112, 17, 1 >>,
+           << 253, 255, 15 >>,
+           << 254, 255, 15 >>,
+           << 255, 255, 15 >>,
+           << 0, 0, 16 >>,
+           << 1, 0, 16 >>,
+           << 2, 0, 16 >>,
+           << 1, 2, 3, 4 >>,
+           << 253, 255, 255, 7 >>,
+           << 254, 255, 255, 7 >>,
+           << 255, 255, 255, 7 >>,
+           << 0, 0, 0, 8 >>,
+           << 1, 0, 0, 8 >>,
+           << 2, 0, 0, 8 >>,
+           << 253, 255, 255, 15 >>,
+           << 254, 255, 255, 15 >>,
+           << 255, 255, 255, 15 >>,
+           << 0, 0, 0, 16 >>,
+           << 1, 0, 0, 16 >>,
+           << 2, 0, 0, 16 >>,
+           << 253, 255, 255, 255 >>,
+           << 254, 255, 255, 255 >>,
+           << 255, 255, 255, 255 >>,
+           << 0, 0, 0, 0, 1 >>,
+           << 1, 0, 0, 0, 1 >>,
+           << 2, 0, 0, 0, 1 >>,
+           << 9, 8, 7, 6, 1 >>,
+           << 253, 255, 255, 255, 3 >>,
+           << 254, 255, 255, 255, 3 >>,
+           << 255, 255, 255, 255, 3 >>,
+           << 0, 0, 0, 0, 4 >>,
+           << 1, 0, 0, 0, 4 >>,
+           << 2, 0, 0, 0, 4 >>,
+           << 253, 255, 255, 255, 7 >>,
+           << 254, 255, 255, 255, 7 >>,
+           << 255, 255, 255, 255, 7 >>,
+           << 0, 0, 0, 0, 8 >>,
+           << 1, 0, 0, 0, 8 >>,
+           << 2, 0, 0, 0, 8 >>,
+           << 253, 255, 255, 255, 255 >>,
+           << 254, 255, 255, 255, 255 >>,
+           << 255, 255, 255, 255, 255 >>,
+           << 0, 0, 0, 0, 0, 1 >>,
+           << 1, 0, 0, 0, 0, 1 >>,
+           << 2, 0, 0, 0, 0, 1 >> }
 
 ---------------------------------------------------------------------------
 
@@ -80,7 +147,7 @@ Cases ==
 \* TLC computes initial states (and checks the invariant on them) with one thread, so the
 \* universe is handed out through NSeeds seed states: the successors of seed i are the i-th
 \* slice of the cases, and the workers evaluate the laws of different slices in parallel.
-CaseSeq == SetToSeq(Cases)
+CaseSeq == SE!SetToSeq(Cases)
 NSeeds == 64
 Chunk == (Len(CaseSeq) + NSeeds - 1) \div NSeeds
 Init == c \in { [kind |-> "seed", i |-> i] : i \in 0..(NSeeds - 1) }
